@@ -394,6 +394,15 @@ func (s *Sim) execTL(ev *TLEvent) {
 		if sv != nil {
 			sv.StickyIOErr, sv.StickySQLErr = 0, 0
 		}
+	case "lag": // scripted replication lag in seconds (custom replication_lag query); N<0 = NULL/unknown
+		if sv != nil {
+			if ev.N < 0 {
+				sv.LagOverride = nil
+			} else {
+				v := float64(ev.N)
+				sv.LagOverride = &v
+			}
+		}
 	case "lag_null_once":
 		if sv != nil {
 			sv.LagNullOnce = true
